@@ -306,10 +306,11 @@ def random_spec(rng, **o):
             others = [c for c in range(nc) if c != pk]
             T[t][:, others[0]] = T[t][:, pk] * np.float32(0.5)
             T[t][:, others[1]] = 0
+    T = T.astype(g('dtype_templates', 'float32'))
     s.templates = T
     if g('sparse_templates', False):
         nloc = min(nc, g('tnloc', int(rng.integers(2, 5))))
-        Ts = np.zeros((nt, nsw, nloc), dtype=np.float32)
+        Ts = np.zeros((nt, nsw, nloc), dtype=T.dtype)
         ind = np.zeros((nt, nloc), dtype=np.int64)
         for t in range(nt):
             ptp = T[t].max(axis=0) - T[t].min(axis=0)
@@ -358,7 +359,7 @@ def random_spec(rng, **o):
     else:
         s.spike_clusters = curate(rng, s.spike_templates, g('curation_ops', int(rng.integers(1, 5))), far=g('far_ids', 0))
     if g('amps', True):
-        s.amplitudes = rng.uniform(0.5, 20., size=ns)
+        s.amplitudes = rng.uniform(0.5, 20., size=ns).astype(g('dtype_amps', 'float64'))
     feat = g('features', 'none')
     if feat != 'none':
         npcs = g('npcs', 3)
@@ -371,7 +372,7 @@ def random_spec(rng, **o):
             k = int(rng.integers(2, ns))
             rows = np.sort(rng.permutation(ns)[:k]).astype(np.int64)
         nrows = ns if rows is None else len(rows)
-        s.pc_features = rng.normal(0, 1, size=(nrows, npcs, nloc)).astype(np.float32)
+        s.pc_features = rng.normal(0, 1, size=(nrows, npcs, nloc)).astype(g('dtype_feat', 'float32'))
         if feat != 'dense':
             ind = np.stack([rng.permutation(nc)[:nloc] for _ in range(nt)]).astype(np.int64)
             s.pc_feature_ind = ind.astype(g('dtype_ind', 'int32'))
